@@ -7,7 +7,6 @@ CHECKS['C03'] = dict(
     note='Trusted: CPython ast and re._parser, transcription of ply.yacc.parse_grammar, ply LALR construction used as a library on extracted (lhs, rhs) tuples, embedded ES5.1 reference grammar and lexical reference patterns. Analyses /repo/src text only.')
 
 NA = {
- 'C17': 'compares two code paths of ply over build products (lextab/yacctab modules) that do not exist in the working tree; the repository contributes only argument plumbing (DESIGN.md section 5)',
 }
 
 CHECKS['C04'] = dict(
@@ -107,3 +106,9 @@ CHECKS['C09'] = dict(
     text='Bounded: exhaustive over the abstract fragment streams up to the bound (14 478 quick, ~250 000 thorough), not beyond. Decides, on those, the mapping of every explicitly positioned fragment (source, line, column, original name; by linear interpolation when normalised), index ranges, monotone generated columns and one mapping line per text line. Streams longer than the bound and other concrete positions are NOT decided; the VLQ layer is C10.',
     ref='DESIGN.md sections 9.2, 13.4',
     note='Trusted: the evaluator (engine/absint.py), the embedded decoder. No repository code is imported or run; the functions are interpreted from their syntax trees.')
+
+CHECKS['C17'] = dict(
+    technique='static analysis by partial evaluation of the plumbing between the repository and ply: Parser.__init__ and Lexer.build evaluated from their syntax trees with stand-ins for Lexer / ply.lex.lex / ply.yacc.yacc over the complete configuration table (lex_optimize x yacc_optimize x table names given/default x with_comments); utils.generate_tab_names folded on version tables; parsers/optimize.py (reoptimize, optimize_build) evaluated with stand-in file operations',
+    text='Narrow claim. Decides only what the repository contributes: the object, start symbol, tokens and comment flag reach ply identically in every configuration, flags and table names pass through unchanged and uncrossed, table names identify module / Python / ply version, and the optimize helper regenerates under the names the parser loads. That ply drives the same parse from cached tables as from computed ones is inside ply and NOT decided; regenerated modules are build products absent from the tree.',
+    ref='DESIGN.md sections 5, 13.4',
+    note='Trusted: the evaluator. exhaustive over the 16 configurations.')
